@@ -23,6 +23,14 @@ MCRules5 == [A |-> [thr |-> 1, items |-> [b |-> 3]]]
 \* instances for the first use of a value (Fresh = TRUE: Lookup / Create / Record are separate steps of up to K callers):
 \* MCRules4 / MCRules5 over MCValues2, and two resources with one value each
 MCRules6 == [A |-> [thr |-> 1, items |-> << >>], B |-> [thr |-> 2, items |-> << >>]]
+\* alternative tables for reloads (Reload puts Alt or Rules in force): thresholds raised / lowered, specific items moved
+MCAlt1 == [A |-> [thr |-> 2, items |-> [a |-> 1]],
+           B |-> [thr |-> 1, items |-> [b |-> 2]]]
+MCAlt3 == [A |-> [thr |-> 1, items |-> [a |-> 2]]]
+\* what a rule with a changed selector reads from the arguments of an entry admitted for a value (Remap), per value set
+MCRemap3 == [a |-> "b", b |-> "c", c |-> None]
+MCRemap2 == [a |-> "b", b |-> None]
+MCRemap1 == [b |-> None]
 
 Emit == PrintT(ToJson(h'))
 
